@@ -431,7 +431,10 @@ func c05WTExec(c c05WTCase, st *lab.Stats) *lab.Fail {
 	}
 	mu.Lock()
 	defer mu.Unlock()
-	st.Case(failed > 0 && c.Writers >= 2, lab.JSONKey(c), fmt.Sprintf("failed-writes>0=%v", failed > 0), fmt.Sprintf("writers=%d", c.Writers))
+	st.Case((failed > 0 || c.TimeoutMs == 0) && c.Writers >= 2, lab.JSONKey(c), fmt.Sprintf("failed-writes>0=%v", failed > 0), fmt.Sprintf("writers=%d", c.Writers), fmt.Sprintf("write-timeout-configured=%v", c.TimeoutMs > 0))
+	if c.TimeoutMs == 0 && failed > 0 {
+		return lab.Failf("write-failed-without-timeout", "%d Write calls returned an error although no write timeout is configured and the client, after reading nothing for %d ms, read everything", failed, c.StallMs)
+	}
 	st.Sample(c)
 	if tail != "" && failed == 0 {
 		return lab.Failf("torn-frame", "the stream ends inside a frame although every Write returned nil: %s", tail)
@@ -455,7 +458,7 @@ func c05WTExec(c c05WTCase, st *lab.Stats) *lab.Fail {
 func TestC05WriteTimeout(t *testing.T) {
 	lab.Prop[c05WTCase]{
 		ID: "C05", Part: "write-timeout",
-		Rule: "rapid: 2..8 writers x enough frames of 70..400 KB to exceed the socket buffers (>= 16 MB in total) on one connection of a server configured WithWriteTimeout(100..300 ms); the client reads nothing for 2-3x that time, so writes start to fail while others are queued; oracle = every frame for which Write returned nil arrives whole and exactly once, the stream is whole frames possibly followed by ONE partial frame at its very end (and only if some Write failed); non-trivial = >= 2 writers and at least one failed Write; distinct by hash",
+		Rule: "rapid: 2..8 writers x enough frames of 70..400 KB to exceed the socket buffers (>= 16 MB in total) on one connection of a server configured WithWriteTimeout(100..300 ms); the client reads nothing for 2-3x that time, so writes start to fail while others are queued; one case in four has NO write timeout, 3..8 writers and a client that reads nothing for 1.2..3.3 s and then everything (no Write may fail); oracle = every frame for which Write returned nil arrives whole and exactly once, the stream is whole frames possibly followed by ONE partial frame at its very end (and only if some Write failed); non-trivial = >= 2 writers and at least one failed Write; distinct by hash",
 		Gen: func(t *rapid.T) c05WTCase {
 			c := c05WTCase{
 				Writers:   rapid.IntRange(2, 8).Draw(t, "writers"),
@@ -464,6 +467,13 @@ func TestC05WriteTimeout(t *testing.T) {
 				TimeoutMs: rapid.SampledFrom([]int{100, 200, 300}).Draw(t, "timeout"),
 			}
 			c.StallMs = c.TimeoutMs * rapid.IntRange(2, 3).Draw(t, "stallx")
+			if rapid.IntRange(0, 3).Draw(t, "notimeout") == 0 {
+				// no write timeout at all: the client just reads nothing for seconds (longer than any plausible
+				// internal patience of a writer queue) and then reads everything - nothing may fail, tear or go missing
+				c.TimeoutMs = 0
+				c.StallMs = rapid.SampledFrom([]int{1200, 2500, 3300}).Draw(t, "longstall")
+				c.Writers = rapid.IntRange(3, 8).Draw(t, "writers3")
+			}
 			// enough data to fill the socket buffers (so that writers really block until the deadline)
 			for c.Writers*c.Frames*c.FrameSize < 16<<20 {
 				c.Frames++
